@@ -27,6 +27,7 @@ Oracle (only what the statement says):
 """
 
 import os
+import math
 import datetime
 import itertools
 import json
@@ -73,7 +74,7 @@ SMALL = {
     # 0 is falsy; 2**53+1 is not a float64
     "int": [0, 9007199254740993, 1],
     # 0.0 falsy; 1.0 is integer-valued (must stay float); 1.5
-    "float": ["0.0", "1.5", "1.0", "inf"],
+    "float": ["0.0", "1.5", "1.0", "inf", "-0.0"],
     # ' ' is whitespace-only, 'nan' looks like a sentinel but is a value
     "str": ["a", "nan", " "],
     # epoch day 0, a leap day, a pre-epoch day
@@ -135,6 +136,8 @@ def strict_eq(a, b):
         return False
     if isinstance(a, str) != isinstance(b, str):
         return False
+    if isinstance(a, float) and isinstance(b, float) and a == 0 and b == 0:
+        return math.copysign(1, a) == math.copysign(1, b)   # the sign of a zero is part of the value (1 / x tells them apart)
     return V.same_value(a, b)
 
 
